@@ -218,6 +218,7 @@ func C01(run *mon.Run) {
 		go func(t triple) {
 			defer wg.Done()
 			defer func() { <-sem }()
+			defer run.Protect("c01 worker")
 			rr := run.Rand(fmt.Sprintf("triple-%d", t.idx))
 			h := t.h.mk()
 			H, err := hashPoint(t.msg, h, t.h.name)
